@@ -150,6 +150,34 @@ func (r *c09Run) explore(units [][]c09Case, progress func(i int, res []c09Result
 	t0 := time.Now()
 	res := r.eng.RunUnits(units, progress)
 	conf := r.eng.Confirming()
+	// a unit abandoned after too many deadline kills (status S for its tail): on an overloaded machine
+	// those kills can be load artifacts, so the tail is run once more with the long deadline (and the
+	// same kill budget); what is abandoned again is reported
+	{
+		again := r.eng.Confirming()
+		again.KillBudget = r.eng.KillBudget
+		var tails [][]c09Case
+		var at [][2]int
+		for u := range res {
+			for k := range res[u] {
+				if res[u][k].Status == "S" {
+					tails = append(tails, units[u][k:])
+					at = append(at, [2]int{u, k})
+					break
+				}
+			}
+		}
+		if len(tails) > 0 {
+			tres := again.RunUnits(tails, nil)
+			for i, a := range at {
+				for j := range tres[i] {
+					tres[i][j].Session += a[1]
+					res[a[0]][a[1]+j] = tres[i][j]
+				}
+			}
+			r.c.Ev.Count("abandoned_tails_rerun", len(tails))
+		}
+	}
 	if verbose {
 		n := 0
 		for _, u := range units {
@@ -159,7 +187,7 @@ func (r *c09Run) explore(units [][]c09Case, progress func(i int, res []c09Result
 	}
 	obs := make([][]c09Obs, len(units))
 	type ref struct{ u, k int }
-	var faults []ref
+	var faults, deferred []ref
 	listed := map[ref]bool{}
 	ranAlone := map[ref]bool{} // already observed alone in a fresh worker with the long deadline
 	accepted, skipped := 0, 0
@@ -221,6 +249,7 @@ func (r *c09Run) explore(units [][]c09Case, progress func(i int, res []c09Result
 	{
 		var keep []ref
 		slow, fresh := 0, 0
+		deferred = nil
 		for _, f := range faults {
 			st := res[f.u][f.k].Status
 			isSlow := st == "H" || st == "M"
@@ -229,6 +258,10 @@ func (r *c09Run) explore(units [][]c09Case, progress func(i int, res []c09Result
 				continue
 			}
 			fresh++
+			if os.Getenv("C09_NOCAP") == "" && isSlow && slow >= 24 && fresh <= 400 {
+				deferred = append(deferred, f) // decided after the first 24 were confirmed
+				continue
+			}
 			if os.Getenv("C09_NOCAP") == "" && (fresh > 400 || (isSlow && slow >= 24)) {
 				if st != "S" {
 					obs[f.u][f.k].Kind, obs[f.u][f.k].How = c09FaultKind(res[f.u][f.k]), "unconfirmed"
@@ -242,8 +275,34 @@ func (r *c09Run) explore(units [][]c09Case, progress func(i int, res []c09Result
 			}
 			keep = append(keep, f)
 		}
-		r.c.Ev.Count("faults_unconfirmed_overflow", len(faults)-len(keep))
+		r.c.Ev.Count("faults_unconfirmed_overflow", len(faults)-len(keep)-len(deferred))
 		faults = keep
+	}
+	if len(deferred) > 0 {
+		// more than 24 deadline / memory kills in the first pass. When none of the first 24 reproduces
+		// alone they were artifacts of machine load, and so are the others most likely: confirm them
+		// like the rest. When one does reproduce the tree really hangs: the others are taken as observed.
+		var probe [][]c09Case
+		for _, f := range faults {
+			if st := res[f.u][f.k].Status; (st == "H" || st == "M") && !listed[f] {
+				probe = append(probe, []c09Case{units[f.u][f.k]})
+			}
+		}
+		real := false
+		for _, pr := range conf.RunIsolated(probe) {
+			if c09FaultKind(pr[0]) == "unbounded" {
+				real = true
+			}
+		}
+		if real {
+			for _, f := range deferred {
+				obs[f.u][f.k].Kind, obs[f.u][f.k].How = c09FaultKind(res[f.u][f.k]), "unconfirmed"
+			}
+			r.c.Ev.Count("faults_unconfirmed_overflow", len(deferred))
+		} else {
+			faults = append(faults, deferred...)
+			r.c.Ev.Count("faults_deferred_confirmed", len(deferred))
+		}
 	}
 	// (1) alone
 	iso := make([][]c09Case, len(faults))
